@@ -70,3 +70,181 @@ Proof.
     + intros name zp pm [].
   - vm_compute. repeat split.
 Qed.
+
+(* ====================================================================================================
+   The GeffReader OBJECT as a state machine (ReaderSM.v): every sequence of read_node_props /
+   read_edge_props / build calls, in any order, with overlapping, repeated, empty or None name lists.
+   ==================================================================================================== *)
+From Geff Require Import ReaderSM ReaderSMLemmas.
+
+(* What the object holds after ANY sequence of calls on a fresh reader: its own fields are those of __init__
+   (root -- nothing is written, C18 --, metadata, id arrays, listed names); the two handle dictionaries hold
+   exactly the names requested so far -- of a failing call, the names in front of the first that could not be
+   opened --, each at the position of its FIRST request (dict insertion order), each with the handle _read_prop
+   returns for that name (a second read replaces the handle by an equal one). *)
+Theorem C09_sm_held : forall rd ops,
+  let s := final (sm_init rd) ops in
+  rs_rd s = rd /\
+  akeys (rs_np s) = first_occ (flat_map (nreq rd) ops) /\
+  akeys (rs_ep s) = first_occ (flat_map (ereq rd) ops) /\
+  (forall k, alookup k (rs_np s) = if smem k (flat_map (nreq rd) ops) then hget (rd_root rd) path_NODES k else None) /\
+  (forall k, alookup k (rs_ep s) = if smem k (flat_map (ereq rd) ops) then hget (rd_root rd) path_EDGES k else None) /\
+  sinv s.
+Proof. exact reachable_held. Qed.
+Print Assumptions C09_sm_held.
+
+(* Refinement: in every reachable object, build(nm, em) IS the one-shot function of Read.v on the names held
+   (outcome and exception alike), so C09_restrict / C09_names / C01 speak about every call sequence. *)
+Theorem C09_sm_build : forall rd ops nm em,
+  build_held (final (sm_init rd) ops) nm em =
+  build rd (Some (first_occ (flat_map (nreq rd) ops))) (Some (first_occ (flat_map (ereq rd) ops))) nm em.
+Proof. exact reachable_build. Qed.
+Print Assumptions C09_sm_build.
+
+(* C09 for every call sequence: build(nm, em) returns the FULL read (all listed properties, no mask) restricted
+   to the names requested so far, then to the masks.  rd_ok: the listed names are those of the stored property
+   groups (true of every reader __init__ returns: reader_init_ok, reader_init_listed_ok). *)
+Theorem C09_sm_build_full : forall rd gall ops nm em,
+  rd_ok rd -> store_ok rd (rd_nnames rd) (rd_enames rd) ->
+  build rd None None None None = Ok gall ->
+  let s := final (sm_init rd) ops in
+  build_held s nm em =
+  Ok (restrict (restrict_names gall (first_occ (flat_map (nreq rd) ops)) (first_occ (flat_map (ereq rd) ops))) nm em).
+Proof. exact sm_build_full. Qed.
+Print Assumptions C09_sm_build_full.
+
+Theorem C09_sm_init_ok : forall k s v ln le rd, reader_init_listed k s v ln le = Ok rd -> rd_ok rd.
+Proof. exact reader_init_listed_ok. Qed.
+Print Assumptions C09_sm_init_ok.
+
+(* masks against the unmasked build of the same object *)
+Theorem C09_sm_restrict : forall rd ops nm em gfull,
+  let s := final (sm_init rd) ops in
+  store_ok rd (akeys (rs_np s)) (akeys (rs_ep s)) ->
+  build_held s None None = Ok gfull -> build_held s nm em = Ok (restrict gfull nm em).
+Proof. exact reachable_restrict. Qed.
+Print Assumptions C09_sm_restrict.
+
+(* the one-shot function is the special case  init; read_node_props; read_edge_props; build  -- for every name
+   list, repeated names included (Read.build's dictionary insertion = the object's) *)
+Theorem C09_sm_oneshot : forall rd nn en nm em g,
+  build rd nn en nm em = Ok g <->
+  results (sm_init rd) [RNode nn; REdge en; Build nm em] = [Ok None; Ok None; Ok (Some g)].
+Proof. exact sm_oneshot_gen. Qed.
+Print Assumptions C09_sm_oneshot.
+
+Theorem C09_sm_dedupe : forall rd nn en nm em g,
+  build rd (Some nn) (Some en) nm em = Ok g <-> build rd (Some (first_occ nn)) (Some (first_occ en)) nm em = Ok g.
+Proof. exact build_dedupe. Qed.
+Print Assumptions C09_sm_dedupe.
+
+(* read_to_memory = GeffReader(...); read_node_props; read_edge_props; build() : C01's statements about
+   read_to_memory are statements about this call sequence *)
+Theorem C09_sm_read_to_memory : forall k s v nn en g,
+  read_to_memory k s v nn en = Ok g <-> read_to_memory_sm k s v nn en = Ok g.
+Proof. exact read_to_memory_sm_eq_gen. Qed.
+Print Assumptions C09_sm_read_to_memory.
+
+(* build does not change the object: a build anywhere in a sequence can be removed without changing the final
+   object or the outcome of any other call; two builds give the same two graphs in either order *)
+Theorem C09_sm_build_pure : forall s a nm em b,
+  fst (step s (Build nm em)) = s /\
+  final s (a ++ Build nm em :: b) = final s (a ++ b) /\
+  results s (a ++ Build nm em :: b) = results s a ++ snd (step (final s a) (Build nm em)) :: results (final s a) b /\
+  results s (a ++ b) = results s a ++ results (final s a) b.
+Proof. intros s a nm em b. split; [reflexivity | exact (build_erase s a nm em b)]. Qed.
+Print Assumptions C09_sm_build_pure.
+
+Theorem C09_sm_builds_commute : forall s a b c d,
+  final s [Build a b; Build c d] = s /\
+  results s [Build a b; Build c d] = [snd (step s (Build a b)); snd (step s (Build c d))] /\
+  results s [Build c d; Build a b] = [snd (step s (Build c d)); snd (step s (Build a b))].
+Proof. exact builds_commute. Qed.
+Print Assumptions C09_sm_builds_commute.
+
+(* every call is idempotent: the same call again returns the same and leaves the same object *)
+Theorem C09_sm_idempotent : forall s o, step (fst (step s o)) o = step s o.
+Proof. exact step_idem. Qed.
+Print Assumptions C09_sm_idempotent.
+
+(* reads commute up to the order of the property dictionaries: two call sequences requesting the same sets of
+   names leave objects with equal fields and equal dictionaries up to order, and a build that succeeds on one
+   succeeds on the other with the same metadata, ids and property contents *)
+Theorem C09_sm_reads_commute : forall rd ops1 ops2 nm em g1,
+  (forall k, smem k (flat_map (nreq rd) ops1) = smem k (flat_map (nreq rd) ops2)) ->
+  (forall k, smem k (flat_map (ereq rd) ops1) = smem k (flat_map (ereq rd) ops2)) ->
+  state_equiv (final (sm_init rd) ops1) (final (sm_init rd) ops2) /\
+  (build_held (final (sm_init rd) ops1) nm em = Ok g1 ->
+   exists g2, build_held (final (sm_init rd) ops2) nm em = Ok g2 /\ graph_equiv g1 g2).
+Proof. exact reachable_commute. Qed.
+Print Assumptions C09_sm_reads_commute.
+
+Theorem C09_sm_swap : forall s o1 o2, state_equiv (final s [o1; o2]) (final s [o2; o1]).
+Proof. exact read_read_commute. Qed.
+Print Assumptions C09_sm_swap.
+
+(* failing calls.  A failing build leaves the object as it was.  A failing read does NOT: "a failing call
+   leaves the object unchanged" is refuted (read_node_props(["v","nope","a"]) raises and keeps "v"); exactly:
+   the object is the one the read of the names in front of the first unopenable name produces. *)
+Definition C09_sm_failed_read_atomic_full : Prop :=
+  forall s names e, snd (step s (RNode names)) = Err e -> fst (step s (RNode names)) = s.
+Theorem C09_sm_failed_read_atomic_refuted : ~ C09_sm_failed_read_atomic_full.
+Proof. intro H. destruct failed_read_not_atomic as [rd [names [e [_ [He [_ Hne]]]]]]. exact (Hne (H _ _ _ He)). Qed.
+Print Assumptions C09_sm_failed_read_atomic_refuted.
+
+Theorem C09_sm_failed_read_partial : forall s names e (node : bool),
+  let o := fun l => if node then RNode l else REdge l in
+  let grp := if node then path_NODES else path_EDGES in
+  let all := if node then rd_nnames (rs_rd s) else rd_enames (rs_rd s) in
+  snd (step s (o names)) = Err e ->
+  exists pre bad post, names_or names all = pre ++ bad :: post /\
+    read_prop_h (rd_root (rs_rd s)) grp bad = Err e /\
+    ok_prefix (rd_root (rs_rd s)) grp (names_or names all) = pre /\
+    step s (o (Some pre)) = (fst (step s (o names)), Ok None).
+Proof. exact failed_read_prefix. Qed.
+Print Assumptions C09_sm_failed_read_partial.
+
+Theorem C09_sm_failed_build : forall s nm em e, snd (step s (Build nm em)) = Err e -> fst (step s (Build nm em)) = s.
+Proof. exact failed_build_state. Qed.
+Print Assumptions C09_sm_failed_build.
+
+(* names=[] loads nothing; names=None is the listed names *)
+Theorem C09_sm_empty_none : forall s,
+  step s (RNode (Some [])) = (s, Ok None) /\ step s (REdge (Some [])) = (s, Ok None) /\
+  step s (RNode None) = step s (RNode (Some (rd_nnames (rs_rd s)))) /\
+  step s (REdge None) = step s (REdge (Some (rd_enames (rs_rd s)))).
+Proof. intro s. destruct (read_empty s) as [H1 H2]. destruct (read_none s) as [H3 H4]. repeat split; assumption. Qed.
+Print Assumptions C09_sm_empty_none.
+
+(* non-vacuity: a stored 3-node graph, node properties "a" (int16) and "v" (var-length, masked), edge property "w";
+   three calls on one reader: read_node_props(["v","v"]); build(node_mask=[1,0,1]); read_node_props(["a","v"]).
+   The premises of C09_sm_build_full hold, the masked build returns nodes 5,7, edge (7,5), the two var-length
+   elements, metadata for "v" only; afterwards the object holds "v" then "a" (first-request order). *)
+Example C09_sm_nonvacuous :
+  exists rd gall,
+    reader_init_listed KObj (Some sm_ex_store) true ["v"; "a"] ["w"] = Ok rd /\
+    rd_ok rd /\ store_ok rd (rd_nnames rd) (rd_enames rd) /\ build rd None None None None = Ok gall /\
+    let ops := [RNode (Some ["v"; "v"]); Build (Some [true; false; true]) None; RNode (Some ["a"; "v"])] in
+    akeys (rs_np (final (sm_init rd) ops)) = ["v"; "a"] /\
+    match results (sm_init rd) ops with
+    | [Ok None; Ok (Some g); Ok None] =>
+        a_flat (g_nids g) = [5; 7]%Z /\ a_flat (g_eids g) = [7; 5]%Z /\ akeys (md_nprops (g_md g)) = ["v"] /\
+        g_nprops g = [("v", mkprop (PVlen [Build_varr DI8 [2%nat] [1; 2]%Z; Build_varr DI8 [1%nat] [3]%Z])
+                                   (Some (mkarr DBool [2%nat] [0; 0]%Z)))] /\
+        g = restrict (restrict_names gall ["v"] []) (Some [true; false; true]) None
+    | _ => False
+    end.
+Proof.
+  destruct (reader_init_listed KObj (Some sm_ex_store) true ["v"; "a"] ["w"]) as [rd|e] eqn:Ei; [|vm_compute in Ei; discriminate].
+  exists rd. pose proof (reader_init_listed_ok _ _ _ _ _ _ Ei) as Hok.
+  vm_compute in Ei. inversion Ei; subst rd; clear Ei.
+  eexists. split; [reflexivity|]. split; [exact Hok|].
+  split.
+  { split.
+    - intros name zp pm Hin Hr Hl Hv. cbn in Hin. destruct Hin as [<-|[<-|[]]]; vm_compute in Hr, Hl; inversion Hr; inversion Hl; subst.
+      + split; [reflexivity | eexists; eexists; reflexivity].
+      + vm_compute in Hv. discriminate.
+    - intros name zp pm Hin Hr Hl Hv. cbn in Hin. destruct Hin as [<-|[]]. vm_compute in Hl. inversion Hl; subst. vm_compute in Hv. discriminate. }
+  split; [vm_compute; reflexivity|].
+  vm_compute. repeat split.
+Qed.
